@@ -276,8 +276,8 @@ class C20(Check):
         import random as _random
         from edgegraph.builder import randgraph as rgmod
         out, n = [], 0
-        for count, conn in ((1001, 0.002), (1500, 0.001), (2049, 0.0005)):
-            for c in ("D", "UU"):
+        for count, conn in ((1001, 0.002), (1500, 0.001), (2049, 0.0005), (4300, 0.0003)):
+            for c in (("D",) if count > 4000 else ("D", "UU")):
                 seed = 77 + count
                 _random.seed(seed)
                 try:
